@@ -84,6 +84,9 @@ HCbb(e) ==
             IN IF e.host.f # r.family /\ r.family # 0 THEN Rej("c13.address_of_unrequested_family")
                ELSE IF Len(e.host.addrs) # Cardinality(got) THEN Rej("c13.duplicate_address_returned")
                ELSE IF r.family # 0 /\ got \notin exps THEN Rej("c13.hostent_addresses_differ_from_accepted_answers")
+               \* both families were asked: the host entry carries one family, and all accepted addresses of that family
+               ELSE IF r.family = 0 /\ got \notin {{x.m : x \in {y \in S : y.f = e.host.f}} : S \in Expected(r)}
+                    THEN Rej("c13.hostent_addresses_differ_from_accepted_answers")
                ELSE Skip
        ELSE IF r.api = "ghba" THEN
             LET ok == PtrNames(r) \cup (IF FileUsed /\ r.hrev # "" THEN {r.hrev} ELSE {}) IN
